@@ -12,6 +12,7 @@ import (
 	"verif/explore"
 	"verif/sim"
 	"verif/vrt"
+	"verif/vrt/vcontext"
 )
 
 // C17: retries back off and never become a hot loop.
@@ -39,6 +40,9 @@ type c17Params struct {
 	entry   string // get | batch | batch2
 	failure string // retry-later | conn-drop-request | region-never-online | meta-retry | meta-conn-drop | zk-error | dial-refused
 	early   bool   // allow timers to fire early (a slow client): gaps may only grow
+	// deadline: the caller's context ends by its own deadline (10 minutes) instead of being
+	// cancelled: the waits must end there too, not degenerate into back-to-back attempts
+	deadline bool
 }
 
 type c17Obs struct {
@@ -110,13 +114,19 @@ func c17Body(p c17Params, out *c17Obs) func() {
 			cl.Down["rs1:1"] = true
 		}
 		ctx, cancel := context.WithCancel(context.Background())
+		if p.deadline {
+			ctx, cancel = vcontext.WithTimeout(context.Background(), 10*time.Minute)
+			out.cancelAt = w.now() + 10*time.Minute
+		}
 		defer cancel()
 		// the caller gives up after 10 minutes of virtual time: the schedule is observed until then
-		vrt.GoNamed("h:canceller", func() {
-			vrt.Sleep(10 * time.Minute)
-			out.cancelAt = w.now()
-			cancel()
-		})
+		if !p.deadline {
+			vrt.GoNamed("h:canceller", func() {
+				vrt.Sleep(10 * time.Minute)
+				out.cancelAt = w.now()
+				cancel()
+			})
+		}
 		switch p.entry {
 		case "get":
 			g, _ := hrpc.NewGetStr(ctx, "t", "a")
@@ -326,6 +336,15 @@ func c17Units(thorough bool) []*explore.Unit {
 						return fmt.Sprintf("attempts=%d err=%s", len(out.w.cl.Attempts), errClass(out.err))
 					}})
 			}
+		}
+	}
+	for _, entry := range []string{"get", "batch"} {
+		for _, failure := range []string{"retry-later", "region-never-online", "meta-retry", "zk-error", "dial-refused", "meta-timeout"} {
+			p := c17Params{entry: entry, failure: failure, deadline: true}
+			p.name = fmt.Sprintf("entry=%s|failure=%s|caller's deadline", entry, failure)
+			out := &c17Obs{}
+			units = append(units, &explore.Unit{Name: p.name, Bound: 0, Opt: vrt.Options{MaxSteps: 40000},
+				Body: c17Body(p, out), Check: c17Check(p, out)})
 		}
 	}
 	for _, failure := range []string{"mixed-retry+nsre", "mixed-nsre+retry"} {
